@@ -81,27 +81,35 @@ CHECKS = {
         text="Bounded solver verdict (nq=2, np=3..6, nT=2): the 19 isotropy relations, axis covariance under permutations, completeness, "
              "dependency order and equality of every component across a bounded family of request sets and orders are decided as "
              "polynomial identities in all spectrum/strain symbols; on every explored path where approximate-equality de-duplication "
-             "merges two different parameter sets z3 shows they agree to 1e-9.",
+             "merges two different parameter sets z3 shows they agree to 1e-9, and the whole calculation runs to completion on every such "
+             "path (request sets with mixed shear keys included).",
         note="Request sets of size 3-20 other than the listed ones are outside; identity obligations assume generic strain fractions "
              "(structural de-dup cut), the merge-tolerance obligations remove that assumption for small request sets.",
         design="3/C04"),
     "C13": dict(
         engine="symnum+z3",
-        technique="symbolic execution of the real phonon pipeline and static fit on re-presented symbolic data (q-point / mode "
-                  "permutations, symbolic weight scale, static rows/columns); z3 decides equality of output polynomials",
+        technique="symbolic execution of the real phonon pipeline, static fit, static-file reader (token files) and Calculator._load on "
+                  "re-presented symbolic data (q-point / mode permutations, symbolic weight scale, static rows/columns, file row order, phonon "
+                  "volume-block order); z3 decides equality of output polynomials / records; qha's grid refinement with exact least squares (LRA)",
         text="Bounded solver verdict: for nq=3 and the listed permutations every output polynomial of the re-presented run equals the "
              "original's for all spectra/strains; the weight scale factor is a symbol; the static cubic fit (exact least-squares stub) is "
-             "invariant under row permutations that keep the reference row first and under column order/case/spelling.",
-        note="Outside: reordering the volume blocks of the phonon file (qha + scipy interpolators cannot be executed symbolically), "
-             "permutations moving static row 0 (needs the affine-invariance argument for the Eulerian strain), rounding.",
+             "invariant under row permutations that keep the reference row first and under column order/case/spelling; the real static-file "
+             "reader keeps volume, moduli and lattice parameters of a row together for every listed row order (tokens, ordered volumes); the "
+             "real Calculator._load hands the same volume-block sequence to the QHA layer whatever order the phonon file lists them in (or, "
+             "if the order gets through, qha's grid refinement is compared as exact linear maps of symbolic free energies).",
+        note="Outside: permutations moving static row 0 (needs the affine-invariance argument for the Eulerian strain), rounding; the "
+             "phonon volume-order obligation is decided at the hand-over (identical data downstream), not by executing qha and scipy on "
+             "permuted data.",
         design="3/C13"),
     "C12": dict(
         engine="fp-kernels (cvc5) + symnum",
         technique="AST -> QF_FP translation of the Bose-factor kernels (exp axiomatised), decided by cvc5; symbolic pipeline for "
-                  "T=0 masking and absence of undefined values; concrete dtype check of the eigen-frame",
+                  "T=0 masking and absence of undefined values; forking execution of the task de-duplication (coinciding strain fractions) with "
+                  "the whole pipeline run on every path; concrete dtype check of the eigen-frame",
         text="Partial: in IEEE binary64 semantics cvc5 shows no finite (omega in [30,1500] cm^-1, T in [0.01,3000] K) makes Q, Q1 or Q2 "
              "NaN/inf and that Q1, Q2 vanish (<=1e-290) above the exp overflow threshold; symbolically no 0/0 or x/0 survives into any "
-             "assembled component and the T=0 row carries no thermal term.",
+             "assembled component and the T=0 row carries no thermal term; for mixed shear keys the calculation completes with defined "
+             "values on every path of the approximate-equality task merging (equal / nearly equal axial strain fractions).",
         note="The configuration sweep 'every schema-valid configuration x interpolator completes' is library behaviour (qha, scipy, LAPACK) "
              "and outside; numpy.exp is modelled by the listed axioms (each a true fact of a faithful exp); eigen-frame real-ness is a "
              "concrete check over the 15 keys.",
@@ -122,14 +130,17 @@ CHECKS = {
     "C07": dict(
         engine="symnum+z3",
         technique="symbolic execution of _calculate_compliances and the VRH / velocity properties on symbolic stiffness fields with an "
-                  "uninterpreted symmetric inverse; z3 identities against 3^4 tensor contractions; nlsat for the ordering on "
-                  "explicit-inverse subclasses",
+                  "uninterpreted symmetric inverse; z3 identities against 3^4 tensor contractions; Reuss<=Hill<=Voigt for the general "
+                  "tensor by a chain of z3-checked polynomial certificates and nlsat lemmas",
         text="For all stiffness / inverse / mass / volume symbols: the matrix inverted is the symmetric Voigt matrix of the tensor, "
              "compliances are its inverse's entries, K_V, G_V, K_R, G_R, Hill values equal the full-tensor contractions, "
-             "rho v_s^2 = G_VRH and rho v_p^2 = K_VRH + 4/3 G_VRH in km/s. Reuss<=Hill<=Voigt only for cubic and (bulk) transversely "
-             "isotropic tensors (nlsat).",
-        note="S.C = I itself is the contract of numpy.linalg.inv (stubbed); ordering for general positive-definite tensors is not "
-             "decided by nlsat and not claimed; unit factors read as symbols when within 1e-8 of CODATA.",
+             "rho v_s^2 = G_VRH and rho v_p^2 = K_VRH + 4/3 G_VRH in km/s. Reuss<=Hill<=Voigt (K and G) for the general symmetric "
+             "stiffness of each key set (up to all 21 components symbolic) with S C = 1: six polynomial identities in all C and S entries "
+             "(certificates for w.C.w = b(ab - n^2)), Cauchy-Schwarz and a 5-term sum lemma by nlsat; direct nlsat cross-check on cubic "
+             "and transversely isotropic tensors.",
+        note="S.C = I itself is the contract of numpy.linalg.inv (stubbed); positive definiteness enters the ordering only through 12 "
+             "instance vectors; the lemmas are each a solver verdict, their composition (modus ponens over the lemma statements) is done "
+             "by the harness; unit factors read as symbols when within 1e-8 of CODATA.",
         design="3/C07"),
     "C15": dict(
         engine="symnum+z3",
@@ -162,7 +173,7 @@ CHECKS = {
                   "through the real constructor signatures; exact least squares for lsq_poly; recording axes for plot_modes; z3 equalities",
         text="For each of the seven methods and the listed orders: the three returned arrays are exp(F), -F', -F'' of one and the same "
              "interpolant built from the flipped (ln V, ln omega) nodes with the documented node selection (for every implementation of "
-             "the interpolant); lsq_poly is exact for ln omega polynomial in ln V up to the order; interpolate_modes fills slot (q,m) from "
+             "the interpolant); lsq_poly is exact for ln omega polynomial in ln V up to the order for every admissible number of volumes down to nv = order+1; interpolate_modes fills slot (q,m) from "
              "that mode only and leaves Gamma acoustic slots zero; plot_modes draws freq / gamma / V dgamma/dV for n = 0, 1, 2.",
         note="That scipy's interpolants reproduce power laws on the extrapolated grid is library numerics (outside; used only in replays). "
              "Known finding: 'hermite' cannot be constructed (known_findings.json).",
@@ -184,7 +195,7 @@ CHECKS = {
         technique="symbolic execution of evec_disp2eig with sqrt / inverse atoms (z3 nlsat identities, complex rows as Sym pairs); forking "
                   "execution of evec_sort over a symbolic perturbation box where z3 decides every abs/argmax comparison",
         text="Small bounds: disp2eig (M<=2, N<=2) returns unit-norm rows parallel to M^(1/2) d for all displacement rows and positive "
-             "masses, restores an orthonormal pair (nlsat under orthonormality constraints), uses the Hermitian norm, rejects shape "
+             "masses on every path of its data-dependent guards, restores an orthonormal pair (nlsat under orthonormality constraints), uses the Hermitian norm, rejects shape "
              "mismatches; evec_sort (n=2,3; rational orthonormal bases; signed permutations; perturbation box [-0.05,0.05]^(n x n)) returns "
              "the expected order on every feasible path of the greedy argmax.",
         note="Outside: dimensions 4-60, arbitrary irrational/complex unitary bases and complex phases for the sort, evec_load (file "
@@ -222,7 +233,8 @@ CHECKS = {
                   "the symbol written at that place",
         text="Partial (structure, for all numeric contents at once): read_elast_data returns the reference volume, count, cell mass, every "
              "row's volume, every component under its canonical Voigt key whatever prefix / case / 2- or 4-index spelling, and the lattice "
-             "block (or none); write_energy followed by read_energy returns the same counts, P/V/E and every frequency at its place.",
+             "block (or none); write_energy followed by read_energy returns the same counts, P/V/E and every frequency at its place, also when "
+             "the same path held (and was read as) other data sets before (bounded history of 4-6 steps).",
         note="Outside: numeric precision of the written text and float() parsing themselves (C-level), q coordinates and weights are concrete "
              "in the round trip (%-formatting realises them), the `cij fill` command's re-emission (pandas C parser / to_string), evec files.",
         design="3/C17 (as built: A.4)"),
